@@ -155,23 +155,27 @@ structure MerkleProof where
   path : List Bytes
 deriving DecidableEq, Repr
 
-/-- `Readable for MerkleProof`: `Vec::with_capacity(path_len as usize)` of 32-byte hashes with
-`path_len` straight from the wire -/
+/-- the cap of the pre-allocation in `MerkleProof::read` (`std::cmp::min(path_len, 64)`) -/
+def MERKLE_PREALLOC : Nat := 64
+
+/-- `Readable for MerkleProof`: `Vec::with_capacity(min(path_len, 64) as usize)` of 32-byte hashes, then
+exactly `path_len` hashes are read (`path_len` straight from the wire) -/
 def merkleProof (rd : Rdr) : Dec MerkleProof := fun bs =>
   bind (rU64 bs) fun mmrSize r =>
   bind (rU64 r) fun pathLen r =>
-  withCapacity pathLen 32
+  withCapacity (min pathLen MERKLE_PREALLOC) 32
     (bind (readN (rHash rd) pathLen r) fun path r => .ok { mmrSize := mmrSize, path := path } r 0)
 
 def encMerkleProof (p : MerkleProof) : Bytes :=
   writeU64 p.mmrSize ++ writeU64 p.path.length ++ p.path.flatten
 
-/-- what a repaired `MerkleProof::read` would do: no pre-allocation from the untrusted count
-(used only to state that the defect is the `with_capacity`, nothing else) -/
-def merkleProofNoPrealloc (rd : Rdr) : Dec MerkleProof := fun bs =>
+/-- `MerkleProof::read` as it was before the repair (`Vec::with_capacity(path_len as usize)`): kept
+to state, kernel-checked, what the repaired line rules out (`Props/C11.lean`) -/
+def merkleProofUnrepaired (rd : Rdr) : Dec MerkleProof := fun bs =>
   bind (rU64 bs) fun mmrSize r =>
   bind (rU64 r) fun pathLen r =>
-  bind (readN (rHash rd) pathLen r) fun path r => .ok { mmrSize := mmrSize, path := path } r 0
+  withCapacity pathLen 32
+    (bind (readN (rHash rd) pathLen r) fun path r => .ok { mmrSize := mmrSize, path := path } r 0)
 
 /-! ## `util::from_hex` (`util/src/hex.rs`) on the UTF-8 bytes of the `&str` -/
 
@@ -265,10 +269,13 @@ def hexLoop : Bytes → HexRes
           | none => .err
           | some v => .ok [v]
 
-/-- `util::from_hex(hex: &str)` on the UTF-8 bytes of `hex` -/
+/-- `str::is_ascii` -/
+def isAscii (s : Bytes) : Bool := s.all fun b => b < 128
+
+/-- `util::from_hex(hex: &str)` on the UTF-8 bytes of `hex`: odd length or non-ASCII is an `Err` -/
 def utilFromHex (s : Bytes) : HexRes :=
   let h := trim0x (strTrim s)
-  if h.length % 2 ≠ 0 then .err else hexLoop h
+  if h.length % 2 ≠ 0 ∨ isAscii h = false then .err else hexLoop h
 
 /-- requested allocation of `util::from_hex`: the error string copy, or the collected bytes -/
 def utilFromHexAlloc (s : Bytes) : Nat :=
@@ -277,12 +284,13 @@ def utilFromHexAlloc (s : Bytes) : Nat :=
   | .err => (trim0x (strTrim s)).length
   | .panic _ => 0
 
-/-- `MerkleProof::from_hex`: `util::from_hex(hex).unwrap()`, then `ser::deserialize_default`
-(`BinReader`), the error mapped to a string -/
+/-- `MerkleProof::from_hex`: `util::from_hex(hex).map_err(..)?`, then `ser::deserialize_default`
+(`BinReader`); both errors are mapped to a string (`err` here; the charge is the copy of the input
+plus the message) -/
 def merkleProofFromHex (s : Bytes) : Outcome MerkleProof :=
   match utilFromHex s with
   | .ok bytes => (merkleProof .bin bytes).addAlloc bytes.length
-  | .err => .panic .unwrapErr (trim0x (strTrim s)).length
+  | .err => .err .corrupted ((trim0x (strTrim s)).length + 40)
   | .panic st => .panic st 0
 
 /-! ## `Segment<T>` / `SegmentProof` read (`core/src/core/pmmr/segment.rs`)
